@@ -5,7 +5,7 @@ import OPM.Model.RunStateOut
 /-!
 Line-protocol driver of model M1 + outputs (RunStateOut), used by C08.
 
-First line of a case:  `cfg <guard> <clocks> <prevFix> <startWrite> <pauseGate> <errSafe> <safes> <outs>`
+First line of a case:  `cfg <bits> <safes> <outs>` (bits: see `parseBits`)
 Then:
   `user <name>`   control command name, or a UOD command of the harness UOD: `W<k>` (writes 60+k once),
                   `L<k>` (writes 70+k for three iterations), k = output register 0..2; anything else ⇒ unknown
@@ -41,6 +41,11 @@ def parseUodName (s : String) : Option (Nat × Int × Nat) :=
 def sysName : Sys → String
   | .running => "Running" | .paused => "Paused" | .holding => "Holding"
   | .stopped => "Stopped" | .restarting => "Restarting"
+
+/-- repair switches as a string of 0/1 in the order guard, clocks, prevFix, startWrite, pauseGate, errSafe,
+    pauseOnce, idleErr (missing = 0) -/
+def parseBits (s : String) : Option (Nat → Bool) :=
+  if s.toList.all (fun c => c = '0' || c = '1') then some (fun i => s.toList.getD i '0' == '1') else none
 
 def parseSafes (s : String) : Option (List (Option Int)) :=
   if s = "-" then some [] else
@@ -95,15 +100,14 @@ def observe (o : OState) (nw0 : Nat) : String :=
 
 def step (σ : Option Sess) (line : String) : Option Sess × String :=
   match σ, fields line with
-  | none, ["cfg", g, c, p, sw, pg, es, safes, outs] =>
-    match parseBool g, parseBool c, parseBool p, parseBool sw, parseBool pg, parseBool es,
-          parseSafes safes, intList outs with
-    | some g, some c, some p, some sw, some pg, some es, some safes, some outs =>
-      let cfg : Cfg := { safes, guard := g, clocks := c, prevFix := p, startWrite := sw, pauseGate := pg,
-                         errSafe := es }
+  | none, ["cfg", bits, safes, outs] =>
+    match parseBits bits, parseSafes safes, intList outs with
+    | some f, some safes, some outs =>
+      let cfg : Cfg := { safes, guard := f 0, clocks := f 1, prevFix := f 2, startWrite := f 3, pauseGate := f 4,
+                         errSafe := f 5, pauseOnce := f 6, idleErr := f 7 }
       let st := initO cfg outs
       (some ⟨cfg, st⟩, "init " ++ observe st 0)
-    | _, _, _, _, _, _, _, _ => (none, "bad-op")
+    | _, _, _ => (none, "bad-op")
   | none, _ => (none, "bad-op")
   | some ss, fs =>
     let nw0 := ss.st.base.core.writes.length
